@@ -6,21 +6,24 @@ import Spine.Generated.EntityLocal
 The concurrent clause of C20 is proved for the member with the lock (`Spine.UC.LSt`, `c20_concurrent_locked`). That the
 tree under test IS that member is a fact about the text of the four `EntityLocal` use-case operations; the translator
 (generator `entitylocal`) re-extracts it from `/repo`'s current tree and these theorems are re-checked by every
-`./check C20`. Removing the lock from one operation, unlocking early, or making the mutex per entity breaks an
-obligation named here — before the schedule search has to find the lost-update witness.
+`./check C20`. The facts are semantic: each operation is flattened into a trace of lock / unlock / copy / store events,
+following calls to helpers of the same package up to three levels, with deferred and explicit unlocks treated alike —
+so folding the four cycles into one helper keeps the facts, while removing the lock from one operation, unlocking
+between the copy and the store, or making the mutex per entity breaks an obligation named here — before the schedule
+search has to find the lost-update witness.
 -/
 namespace Spine.Props.C20Gen
 open Spine
 
-/-- all four read-modify-write operations take `useCaseMux` first, release it only by defer, and their one DataCopy
-    and one SetData are inside: each cycle is `acquire; copy; store; release` of the model -/
+/-- for all four read-modify-write operations every DataCopy and SetData they perform lies inside ONE critical section
+    of a package-level mutex: each cycle is `acquire; copy; store; release` of the model -/
 theorem c20_cycles_are_locked :
     Generated.EntityLocal.lockedAddUseCaseSupport = true ∧ Generated.EntityLocal.lockedSetUseCaseAvailability = true ∧
     Generated.EntityLocal.lockedRemoveUseCaseSupport = true ∧ Generated.EntityLocal.lockedRemoveAllUseCaseSupports = true := by
   decide
 
-/-- it is ONE lock for the whole device (package level), not one per entity: operations on different entities
-    exclude each other — the model has a single `holder` -/
+/-- it is ONE lock, the same package-level mutex for all four operations, not one per entity: operations on different
+    entities exclude each other — the model has a single `holder` -/
 theorem c20_one_lock_for_all_entities : Generated.EntityLocal.useCaseMuxPackageLevel = true := by decide
 
 end Spine.Props.C20Gen
